@@ -110,31 +110,56 @@ def gen_mem(rng):
     return {"mode": "mem", "ops": ops, "scale": 1, "tol": MARGIN}
 
 
-def gen_focus(rng):
-    """histories built around one key: write with a lifetime, maybe wait, then a lifetime-taking op, wait, read"""
-    k = "k0"
+def gen_focus(rng, mode="mem"):
+    """one key of one type: create it with a lifetime (collections: SetExpiration right after), maybe wait, one
+    lifetime-sensitive operation, maybe wait, then every read that applies.  mem: sometimes the second operation
+    belongs to another type (type confusion)."""
+    ttl = lambda: rng.choice(TTLS)
     v = rng.choice(["a", "b", 7])
-    first = rng.choice([{"op": "set", "k": k, "v": v, "ttl": rng.choice(TTLS)},
-                        {"op": "setnx", "k": k, "v": v, "ttl": rng.choice(TTLS)},
-                        {"op": "setlist", "k": k, "v": ["a", "b"], "ttl": rng.choice(TTLS)},
-                        {"op": "sethash", "k": k, "f": "f", "v": "a"}, {"op": "incrby", "k": k, "n": 7},
-                        {"op": "append", "k": k, "v": "a"}])
-    ops = [first]
-    for _ in range(rng.randrange(3)):
-        ops.append({"op": "tick", "d": TICK})
-    second = rng.choice([{"op": "cas", "k": k, "old": v, "v": "c", "ttl": rng.choice(TTLS)},
-                         {"op": "cas", "k": k, "old": None, "v": "c", "ttl": rng.choice(TTLS)},
-                         {"op": "setexp", "k": k, "ttl": rng.choice(TTLS)}, {"op": "setnx", "k": k, "v": "c", "ttl": rng.choice(TTLS)},
-                         {"op": "append", "k": k, "v": "z"}, {"op": "sethash", "k": k, "f": "g", "v": "z"},
-                         {"op": "incrby", "k": k, "n": 1}, {"op": "remove", "k": k, "v": "a"}, {"op": "delhash", "k": k, "f": "f"},
-                         {"op": "cleanup"}, {"op": "getexp", "k": k}])
-    ops.append(second)
-    for _ in range(rng.randrange(3)):
-        ops.append({"op": "tick", "d": TICK})
-    ops += [{"op": "get", "k": k}, {"op": "exists", "k": k}, {"op": "getexp", "k": k}]
-    if rng.random() < 0.5:
-        ops += [{"op": "cleanup"}, {"op": "setexp", "k": k, "ttl": LONG}, {"op": "get", "k": k}]
-    return {"mode": "mem", "ops": ops, "scale": 1, "tol": MARGIN}
+    firsts = {
+        "s": lambda k: [rng.choice([{"op": "set", "k": k, "v": v, "ttl": ttl()}, {"op": "setnx", "k": k, "v": v, "ttl": ttl()}])],
+        "l": lambda k: [rng.choice([{"op": "setlist", "k": k, "v": ["a", "b", "a"], "ttl": ttl()}, {"op": "append", "k": k, "v": "a"}])],
+        "h": lambda k: [{"op": "sethash", "k": k, "f": "f", "v": "a"}],
+        "c": lambda k: [{"op": "incrby", "k": k, "n": 7}],
+    }
+    seconds = {
+        "s": lambda k: [{"op": "cas", "k": k, "old": v, "v": "c", "ttl": ttl()}, {"op": "cas", "k": k, "old": None, "v": "c", "ttl": ttl()},
+                        {"op": "cas", "k": k, "old": "zz", "v": "c", "ttl": ttl()}, {"op": "setnx", "k": k, "v": "c", "ttl": ttl()},
+                        {"op": "set", "k": k, "v": "c", "ttl": ttl()}, {"op": "setexp", "k": k, "ttl": ttl()}, {"op": "getexp", "k": k}],
+        "l": lambda k: [{"op": "append", "k": k, "v": "z"}, {"op": "remove", "k": k, "v": "a"}, {"op": "setlist", "k": k, "v": ["z"], "ttl": ttl()},
+                        {"op": "setexp", "k": k, "ttl": ttl()}],
+        "h": lambda k: [{"op": "sethash", "k": k, "f": "g", "v": "z"}, {"op": "sethash", "k": k, "f": "f", "v": "z"},
+                        {"op": "delhash", "k": k, "f": "g"}, {"op": "setexp", "k": k, "ttl": ttl()}],
+        "c": lambda k: [{"op": "incrby", "k": k, "n": 1}, {"op": "setexp", "k": k, "ttl": ttl()}],
+    }
+    reads = {
+        "s": lambda k: [{"op": "get", "k": k}, {"op": "exists", "k": k}, {"op": "getexp", "k": k}],
+        "l": lambda k: [{"op": "getlist", "k": k}, {"op": "exists", "k": k}, {"op": "getexp", "k": k}],
+        "h": lambda k: [{"op": "getallhash", "k": k}, {"op": "gethash", "k": k, "f": "f"}, {"op": "exists", "k": k}],
+        "c": lambda k: [{"op": "get", "k": k}, {"op": "exists", "k": k}, {"op": "incrby", "k": k, "n": 1}],
+    }
+    ty = rng.choice(["s", "s", "l", "h", "c"])
+    k = {"s": "s0", "l": "l0", "h": "h0", "c": "c0"}[ty] if mode == "redis" else "k0"
+    ops = firsts[ty](k)
+    if ty != "s" and rng.random() < 0.6:
+        ops.append({"op": "setexp", "k": k, "ttl": ttl()})
+    ops += [{"op": "tick", "d": TICK}] * rng.randrange(4)
+    ty2 = ty
+    if mode == "mem":
+        if rng.random() < 0.25:
+            ty2 = rng.choice(["s", "l", "h", "c"])
+        if rng.random() < 0.15:
+            ops.append({"op": "cleanup"})
+    ops.append(rng.choice(seconds[ty2](k) + [{"op": "del", "k": k}]))
+    ops += [{"op": "tick", "d": TICK}] * rng.randrange(3)
+    ops += reads[ty](k)
+    if mode == "mem":
+        if ty2 != ty:
+            ops += reads[ty2](k)
+        if rng.random() < 0.4:
+            ops += [{"op": "cleanup"}, {"op": "setexp", "k": k, "ttl": LONG}] + reads[ty](k)
+        return {"mode": "mem", "ops": ops, "scale": 1, "tol": MARGIN}
+    return {"mode": "redis", "ops": ops, "scale": 100, "tol": 10 ** 12}
 
 
 RSTR = ["a", "b", "{\"id\":7,\"n\":\"x\"}", "café", "x y"]
@@ -445,7 +470,8 @@ def run(ctx, only_cases=None):
         cases += [gen_focus(rng) for _ in range(n_focus)]
         if thorough:
             cases += exhaustive_small(rng, 3)
-        cases += [gen_redis(rng) for _ in range(n_redis)]
+        cases += [gen_redis(rng) for _ in range(n_redis // 2)]
+        cases += [gen_focus(rng, "redis") for _ in range(n_redis - n_redis // 2)]
         cas_ok = flags["v_cas_zero_guard"] and flags["v_cas_ttl0_never"]
         cases += [gen_conc(rng, race_ok is True, cas_ok) for _ in range(n_conc)]
     timed = [c for c in cases if c["mode"] != "conc"]
